@@ -174,7 +174,8 @@ def main(argv):
                           {"pdl": t2, "original": text, "signature": {"class": "ill-perm", "a": c1, "b": c2}})
     # -- groups as inlined
     for k in range(2 * n + max(3, n // 2)):
-        ga, gb = GG.gen(rng) if k < n else (GG.gen_shared(rng) if k < 2 * n else GG.gen_shared_payload(rng))
+        ga, gb = GG.gen(rng) if k < n else (GG.gen_shared(rng, force={n: "plain-first", n + 1: "plain-last"}.get(k)) if k < 2 * n
+                                            else GG.gen_shared_payload(rng))
         ra, rb = analyze(ga), analyze(gb)
         run.case((ga, "group"))
         run.hist("variants", "group-vs-inlined")
